@@ -82,7 +82,7 @@ class Material:
 
     def __init__(self, wd, rng, T, heavy_ok=True):
         roots = corpus(wd)
-        pick = rng.sample(roots, min(len(roots), 60 if T else 28))
+        pick = rng.sample(roots, min(len(roots), 140 if T else 28))
         extra = [r for r in roots if any(t in r["tags"] for t in ("mate", "stalemate"))]
         fens = list(dict.fromkeys([START] + [r["fen"] for r in pick + extra]))
         gen, infos = casegen(wd, fens, "eg")
@@ -554,12 +554,12 @@ def mk(cases, kind, steps, **kw):
 
 def plan_c07(wd, rng, T, mat):
     inproc, binary, sweeps = [], [], []
-    for steps in sessions_from_skeletons(wd, rng, mat, 60 if T else 14, 24, False):
+    for steps in sessions_from_skeletons(wd, rng, mat, 240 if T else 14, 24, False):
         mk(inproc, "inproc", steps)
-    for steps in sessions_from_skeletons(wd, rng, mat, 30 if T else 6, 16, True):
+    for steps in sessions_from_skeletons(wd, rng, mat, 100 if T else 6, 16, True):
         mk(binary, "binary", steps)
     # directed: every limit kind on positions with one legal move, terminal positions, and a threefold root
-    specials = [(g["fen"], []) for g in (mat.one_move + mat.terminal)[: (12 if T else 5)]] + [(START, list(SHUFFLE))]
+    specials = [(g["fen"], []) for g in (mat.one_move + mat.terminal)[: (40 if T else 5)]] + [(START, list(SHUFFLE))]
     for fen, moves in specials:
         steps = [{"t": "position", "fen": fen, "moves": moves}]
         for g in ({"depth": 1}, {"depth": 3}, {"movetime": 0}, {"movetime": 30}, {"wtime": 1000, "btime": 1000, "winc": 0, "binc": 0},
@@ -574,7 +574,7 @@ def plan_c07(wd, rng, T, mat):
     bpos = [{"fen": START, "moves": []}] + [{"fen": g["fen"], "moves": []} for g in rng.sample(rich, min(2, len(rich)))]
     for gop in ({"wtime": 60000, "btime": 60000, "winc": 0, "binc": 0}, {"movetime": 0}) if T else ({"wtime": 60000, "btime": 60000, "winc": 0, "binc": 0},):
         mk(inproc, "inproc", [{"t": "position", "fen": START, "moves": []}, {"t": "go", "depth": 4},
-                              {"t": "burst", "n": 200000 if T else 40000, "nodes": 1050000 if T else 330000, "positions": bpos, "go": gop}])
+                              {"t": "burst", "n": 400000 if T else 40000, "nodes": 2100000 if T else 330000, "positions": bpos, "go": gop}])
     mk(binary, "binary", [{"t": "position", "fen": START, "moves": list(SHUFFLE)}, {"t": "go", "depth": 2}, {"t": "go", "movetime": 0},
                            {"t": "go", "wtime": 50, "btime": 50, "winc": 0, "binc": 0}])
     return inproc, binary, sweeps
@@ -588,9 +588,9 @@ def plan_c09(wd, rng, T, mat, lite=False):
     inproc, binary, sweeps = [], [], []
     sparse = [g for g in mat.items if 3 <= len(g["legal"]) <= 26]
     # (lite, for C16: more positions, fewer abort points each - what matters there is an iteration in which the best root move changes)
-    for g in rng.sample(sparse, min(len(sparse), (8 if T else 2) if not lite else (12 if T else 5))):
+    for g in rng.sample(sparse, min(len(sparse), (24 if T else 2) if not lite else (30 if T else 5))):
         sweeps.append({"id": len(sweeps) + 1, "family": "engine", "kind": "sweep", "fen": g["fen"], "moves": [],
-                       "steps": [{"t": "abort_sweep", "depth": 3, "max": (4000 if T else 500) if not lite else (1000 if T else 160), "seed": rng.randrange(1 << 30)}]})
+                       "steps": [{"t": "abort_sweep", "depth": 3, "max": (6000 if T else 500) if not lite else (1500 if T else 160), "seed": rng.randrange(1 << 30)}]})
     if T:
         for g in rng.sample(sparse, min(len(sparse), 3)):
             sm = rng.sample(g["legal"], min(2, len(g["legal"])))
@@ -598,7 +598,7 @@ def plan_c09(wd, rng, T, mat, lite=False):
                            "steps": [{"t": "abort_sweep", "depth": 4, "searchmoves": sm, "max": 3000, "seed": rng.randrange(1 << 30)}]})
     # real interruptions, no hook: stop / movetime expiry on positions that need > 100,000 nodes per iteration
     heavy = heavy_positions(mat) or mat.items
-    for g in rng.sample(heavy, min(len(heavy), 8 if T else 3)):
+    for g in rng.sample(heavy, min(len(heavy), 24 if T else 3)):
         steps = [{"t": "position", "fen": g["fen"], "moves": []}]
         for _ in range(3):      # consecutive interrupted searches
             steps.append(rng.choice([{"t": "go", "infinite": True, "stop_after_ms": rng.choice([1, 5, 20, 100, 300])},
@@ -607,19 +607,19 @@ def plan_c09(wd, rng, T, mat, lite=False):
         mk(inproc, "inproc", steps)
         bsteps = [s for s in steps if s["t"] in ("position", "go")]
         mk(binary, "binary", bsteps)
-    for g in rng.sample(heavy, min(len(heavy), 4 if T else 1)):
+    for g in rng.sample(heavy, min(len(heavy), 10 if T else 1)):
         mk(binary, "binary", [{"t": "position", "fen": g["fen"], "moves": []}, {"t": "quit_during_search", "after_ms": rng.choice([5, 60, 400])}])
     return inproc, binary, sweeps
 
 
 def plan_c16(wd, rng, T, mat):
     inproc, binary, sweeps = [], [], []
-    for steps in sessions_from_skeletons(wd, rng, mat, 40 if T else 8, 30, True):
+    for steps in sessions_from_skeletons(wd, rng, mat, 120 if T else 8, 30, True):
         mk(binary, "binary", steps)
-    for steps in sessions_from_skeletons(wd, rng, mat, 40 if T else 8, 30, False):
+    for steps in sessions_from_skeletons(wd, rng, mat, 160 if T else 8, 30, False):
         mk(inproc, "inproc", steps)
     # whole games on one process: state carried between searches (previous PV continuation, killer table, metrics)
-    for k in range(10 if T else 3):
+    for k in range(30 if T else 3):
         g = rng.choice(mat.items)
         lim = [{"depth": rng.choice([1, 2, 3])}, {"movetime": rng.choice([5, 30])}, {"depth": 2},
                {"wtime": 200, "btime": 200, "winc": 10, "binc": 10}, {"infinite": True, "stop_after_ms": rng.choice([0, 20])}]
